@@ -69,10 +69,10 @@ def model (root : Str) (els : List El) : Json :=
     let sub : Path → Str → Str := fun _ s => insertAbs ptbl (s.length + 1) s
     -- `clean_text_values` → `validate_pyxform_reference_syntax` on every survey cell
     if (questions els).any (fun d => [d.default, d.calcu, d.trigger].any fun c =>
-        !(Lexer.refLoop false (Lexer.scanWith rules c).1) && c.length > 2 && isInfix ['$', '{'] c) then
+        !(Lexer.refLoop none (Lexer.scanWith rules c).1) && c.length > 2 && isInfix ['$', '{'] c) then
       Json.mkObj [("outcome", "error"), ("err", "reference syntax")]
     else
-    match run Pyxv.Gen.triggerMustBeVisibleQuestion dyn sub root els with
+    match run dyn sub root els with
     | .error (.unsupported w) => Json.mkObj [("outcome", "unsupported"), ("why", Json.str w)]
     | .error e => Json.mkObj [("outcome", "error"), ("err", Json.str (errStr e))]
     | .ok o =>
